@@ -122,10 +122,16 @@ Definition accepts (st : store) (e : event) : bool := check_event st e =? 0.
 (* the rows an apply writes: (id, row, isNew) *)
 Definition item := (N * rec * bool)%type.
 
-(* applyRecs on the event object that was built: the in-memory origin is used unless it has no
-   user field, in which case the stored row is loaded and the result rebuilt *)
-Definition eff_origin (st : store) (ws : N) (u : update) : option rec :=
+(* applyRecs before e4efa7ee7 (F-C03-1): the in-memory origin was used unless it had no user field,
+   in which case the stored row was loaded and the result rebuilt.  Kept as the shape the model
+   falls back to when the translator no longer finds the unconditional reload. *)
+Definition eff_origin_old (st : store) (ws : N) (u : update) : option rec :=
   if rec_empty (u_origin u) then lookup st ws (r_id (u_origin u)) else Some (u_origin u).
+
+(* applyRecs: every update is rebuilt over the row stored now; the object handed to ICUD.Update
+   supplies the id only *)
+Definition eff_origin (st : store) (ws : N) (u : update) : option rec :=
+  if rec_apply_reloads_origin then lookup st ws (r_id (u_origin u)) else eff_origin_old st ws u.
 
 Fixpoint update_items (origin : update -> option rec) (us : list update) : option (list item) :=
   match us with
@@ -185,6 +191,14 @@ Definition reapply (st : store) (e : event) : store * N :=
 
 Definition run (st : store) (h : list event) : store := fold_left (fun s e => fst (apply s e)) h st.
 
+(* the same with the old applyRecs, whatever the flag says (witness of F-C03-1) *)
+Definition apply_old (st : store) (e : event) : store * N :=
+  match option_map (app (create_items (e_creates e))) (update_items (eff_origin_old st (e_ws e)) (e_updates e)) with
+  | None => (st, 1)
+  | Some items => put_batch0 st (e_ws e) items
+  end.
+Definition run_old (st : store) (h : list event) : store := fold_left (fun s e => fst (apply_old s e)) h st.
+
 (* ---------- validity of an event in a state (the property's "valid events") ---------- *)
 
 Definition bound64 : N := 2 ^ 64.
@@ -192,13 +206,13 @@ Definition bound64 : N := 2 ^ 64.
 Definition ev_bounded (e : event) : bool :=
   (e_ws e <? bound64) && forallb (fun i => i <? bound64) (event_ids e).
 
-(* the record handed to ICUD.Update is the one currently stored (the command processor reads it in
-   the same step), or has no user fields (then Apply reloads it) *)
+(* every update names a stored record over which it can be built (same id; parent and container,
+   if the changes carry them, are the stored ones), so that Apply succeeds.  Nothing is required of
+   the content of the record object handed to ICUD.Update. *)
 Definition fresh_origins (st : store) (e : event) : bool :=
   forallb (fun u => (r_id (u_origin u) =? u_id u) &&
                     match lookup st (e_ws e) (u_id u) with
-                    | Some o => (rec_empty (u_origin u) || rec_eqb o (u_origin u))
-                                && match build_update o u with Some _ => true | None => false end
+                    | Some o => match build_update o u with Some _ => true | None => false end
                     | None => false
                     end) (e_updates e).
 
@@ -209,7 +223,7 @@ Definition new_ids_fresh (st : store) (e : event) : bool :=
 Definition valid_event (st : store) (e : event) : bool :=
   accepts st e && ev_bounded e && fresh_origins st e && new_ids_fresh st e.
 
-(* what BuildRawEvent + ID generation alone guarantee (no statement about the origins handed to Update) *)
+(* what BuildRawEvent + ID generation alone guarantee (no statement about the stored rows the updates meet) *)
 Definition accepted_event (st : store) (e : event) : bool :=
   accepts st e && ev_bounded e && new_ids_fresh st e.
 
@@ -343,7 +357,8 @@ Fixpoint agrees_from (st : store) (last : option (event * list item)) (t : trace
       match last with
       | None => false
       | Some (e, items) =>
-          if mode =? 1 then (res =? 0) && agrees_from (put_all st (e_ws e) items) last rest
+          if (mode =? 1) && negb rec_apply_reloads_origin
+          then (res =? 0) && agrees_from (put_all st (e_ws e) items) last rest
           else let '(st', code) := reapply st e in (res =? code) && agrees_from st' last rest
       end
   | SObs _ ws id o :: rest => option_eqb rec_eqb o (lookup st ws id) && agrees_from st last rest
